@@ -268,4 +268,50 @@ theorem deleteIndex_refines {h : Heap} (hs : Struct h) (ha : Acyc h) (n : Nat) (
   rw [hpop]
   exact ⟨⟨c, rfl⟩, r2, r4⟩
 
+/-! ### moving an attached node -/
+
+/-- `remove` of a child from any container: every node that is neither the container nor one of its ancestors keeps its value -/
+theorem remove_refines_frame {h : Heap} (hs : Struct h) (ha : Acyc h) (p v : Nat) (hv : v < h.size) (hpar : (h.get v).parent = some p)
+    (fuel : Nat) : ∀ m : Id, ¬ Anc h m p → absVal fuel (h.remove p v).1 m = absVal fuel h m := by
+  obtain ⟨hp, hcont, hmem, _⟩ := (hs v hv).par p hpar
+  cases ht : (h.get p).type with
+  | array => exact (removeArray_refines hs ha p v hv hpar ht fuel).2.1
+  | object =>
+    obtain ⟨kc, hkc, he⟩ := List.mem_map.mp hmem
+    have hl := lookup_of_mem (hs p hp).nodup hkc
+    rw [he] at hl
+    exact (removeObject_refines hs ha p hp ht kc.1 v hl fuel).1
+  | null => rw [ht] at hcont; cases hcont
+  | numeric => rw [ht] at hcont; cases hcont
+  | string => rw [ht] at hcont; cases hcont
+  | bool => rw [ht] at hcont; cases hcont
+
+/-- **AppendArray of an ATTACHED node moves it**: the call is `remove` from its container `p` followed by the append of the now
+detached node; so every node that is off the ancestor chains of both `p` and the receiver keeps its value, and the receiver denotes
+what it denotes after the removal (its old value when it is not `p` or above `p`) followed by the value of the moved node -/
+theorem appendArray_move_refines {h : Heap} (hs : Struct h) (ha : Acyc h) (n v p : Nat) (hn : n < h.size) (hv : v < h.size)
+    (harr : (h.get n).type = .array) (hloop : h.isParentOrSelfNode n v = false) (hpar : (h.get v).parent = some p) (fuel : Nat) :
+    (∀ m : Id, ¬ Anc h m n → ¬ Anc h m p → absVal fuel (h.appendArray n [v]).1 m = absVal fuel h m) ∧
+    (∀ xs x, absVal (fuel + 1) (h.remove p v).1 n = some (.arr xs) → absVal fuel h v = some x →
+      absVal (fuel + 1) (h.appendArray n [v]).1 n = some (.arr (xs ++ [x]))) := by
+  obtain ⟨e, sA, aA, zA, tyA, rootA, loopA⟩ := appendNode_of_attached hs ha n v p hn hv hpar none hloop
+  have hfr := remove_refines_frame hs ha p v hv hpar fuel
+  have hia : h.isArray n = true := by simp [isArray, typeOf, harr]
+  have hiaA : (h.remove p v).1.isArray n = true := by simp [isArray, typeOf, tyA n, harr]
+  have hany : ([v].any (fun c => h.isParentOrSelfNode n c)) = false := by simp [hloop]
+  have hanyA : ([v].any (fun c => (h.remove p v).1.isParentOrSelfNode n c)) = false := by simp [loopA]
+  have heq : h.appendArray n [v] = (h.remove p v).1.appendArray n [v] := by
+    unfold Heap.appendArray
+    simp only [hia, hiaA, Bool.not_true, Bool.false_eq_true, if_false, hany, hanyA, List.map_cons, List.map_nil, Heap.appendAll, e]
+  rw [heq]
+  obtain ⟨a1, a2⟩ := appendArray_refines sA aA n v (by rw [zA]; exact hn) (by rw [zA]; exact hv) (by rw [tyA]; exact harr) loopA rootA fuel
+  have hancA : ∀ m : Id, Anc (h.remove p v).1 m n → Anc h m n := fun m ⟨j, hj⟩ => ⟨j, up_of_parent_sub (remove_parent_sub h p v) n j m hj⟩
+  -- the moved node is not `p` or above `p`: it is a child of `p` in an acyclic heap
+  have hvp : ¬ Anc h v p := by
+    rintro ⟨k, hk⟩
+    exact ha v k (by rw [up_succ_of_parent hpar]; exact hk)
+  refine ⟨fun m hm1 hm2 => ?_, fun xs x hxs hx => ?_⟩
+  · rw [a1 m (fun hc => hm1 (hancA m hc)), hfr m hm2]
+  · exact a2 xs x hxs (by rw [hfr v hvp]; exact hx)
+
 end Ajson.Proofs
